@@ -40,6 +40,8 @@ class ClassRef:
 class FuncRef:
     def __init__(self, node, module, cls=None, closure=None):
         self.node, self.module, self.cls, self.closure = node, module, cls, closure
+        if closure is None and cls is not None and getattr(cls, 'closure', None) is not None:
+            self.closure = cls.closure       # methods of a class defined inside a function see that function's locals
 
     @property
     def name(self):
@@ -168,15 +170,23 @@ class Program:
                 continue
             seen.add(c.name)
             out.append(c)
-            work = [self.classes[b] for b in c.bases if b in self.classes] + work
+            work = [x for x in (self._base(c, b) for b in c.bases) if x is not None] + work
         return out
+
+    def _base(self, c, b):
+        """the package class a base-class name of `c` denotes (classes defined inside functions resolve through the defining frame)"""
+        fr = getattr(c, 'closure', None)
+        if fr is not None and fr.has(b):
+            v = fr.lookup(b)
+            return v if isinstance(v, ClassRef) else None
+        return self.classes.get(b)
 
     def ext_bases(self, cls):
         """names of base classes that are not defined in the package (library bases)"""
         out = []
         for c in self.mro(cls):
             for b in c.bases:
-                if b not in self.classes:
+                if self._base(c, b) is None:
                     out.append(b)
         return out
 
